@@ -187,6 +187,7 @@ class Run:
         }
         if extra_cov:
             cov.update(extra_cov)
+        cov.update(getattr(self, 'extra', {}))
         ev = {'property_id': self.prop, 'tier': self.tier, 'seed': self.seed, 'level': self.level,
               'coverage': cov, 'assumptions': self.assumptions, 'wall_s': round(time.time() - self.t0, 2),
               'violations': len(self.violations)}
